@@ -45,7 +45,7 @@ pub fn varint_arbitrary<const N: usize>() {
         (Ok(_), None) => kani::assert(false, "C10: decode_varint accepts what the reference decoder rejects (unterminated / overflowing varint)"),
         (Err(_), Some(_)) => kani::assert(false, "C10: decode_varint rejects a valid varint"),
     }
-    kani::cover!(got.is_ok() && consumed == 10, "ten byte varint accepted");
+    kani::cover!(N < 10 || (got.is_ok() && consumed == 10), "ten byte varint accepted");
     kani::cover!(got.is_err(), "some input rejected");
     core::mem::forget(got);
 }
@@ -110,7 +110,7 @@ pub fn decoder_arbitrary<const API: u8, const N: usize>() {
     if s.is_empty() && !matches!(API, D_SKIP_EGROUP | D_INT32_WRONG_WT) {
         kani::assert(!is_ok, "C10: empty input is rejected");
     }
-    kani::cover!(is_ok, "some input decodes");
+    kani::cover!(is_ok || matches!(API, D_SKIP_EGROUP | D_INT32_WRONG_WT), "some input decodes");
     kani::cover!(true, "reached end");
 }
 
